@@ -43,7 +43,8 @@ class Gen:
             return r.choice(['random()', 'randint(1, 6)', 'randint(3, 3)', '-0', '0', '1'])
         k = r.below(12)
         a = self.expr(d - 1); b = self.expr(d - 1)
-        if k < 5: return '%s %s %s' % (a, r.choice(['+', '-', '*', '/', '%']), b)
+        if k < 4: return '%s %s %s' % (a, r.choice(['+', '-', '*']), b)
+        if k < 5: return '%s %s %d' % (a, r.choice(['/', '%']), r.range(1, 9))      # never by zero: non-finite geometry is outside the model
         if k < 7: return '%s %s %s' % (a, r.choice(['eq', 'ne', 'lt', 'le', 'gt', 'ge', 'and', 'or', 'xor']), b)
         if k < 8: return '(%s)' % a
         if k < 9: return '-%s' % a
